@@ -33,7 +33,7 @@ type SocksCase struct {
 	UseUDP bool   `json:"useUDP,omitempty"`
 }
 
-const nTargets = 13
+const nTargets = 14
 
 var exemplars = [][]byte{
 	{5, 1, 0, 1, 93, 184, 216, 34, 0, 80},                                           // CONNECT ipv4
@@ -491,6 +491,89 @@ func propSocks(c SocksCase) (o pbt.Outcome) {
 			defer func() {
 				if r := recover(); r != nil {
 					o.Failf("panic/target-12", "ServeConn (datagram relay) panicked on datagrams % x / % x: %v", trunc(c.Data), trunc(c.Reply), r)
+				}
+			}()
+			srv.ServeConn(conn)
+		}()
+		select {
+		case <-done:
+		case <-time.After(5 * time.Second):
+			conn.Close()
+			<-done
+		}
+	case 13:
+		// client role, UDP ASSOCIATE: the proxy server completes the handshake
+		// properly and then sends well-framed tunnel packets with hostile content
+		// at once - before the local application has sent its first datagram
+		cfg := &socks5.Config{HandshakeTimeout: 300 * time.Millisecond, UseProxy: true}
+		cfg.ProxyDialer = dialerFunc(func() (net.Conn, error) {
+			a, b := net.Pipe()
+			go func() {
+				defer b.Close()
+				buf := make([]byte, 4096)
+				// method negotiation, then the request: both answered properly
+				b.SetReadDeadline(time.Now().Add(500 * time.Millisecond))
+				if _, err := io.ReadFull(b, buf[:3]); err != nil {
+					return
+				}
+				b.SetWriteDeadline(time.Now().Add(500 * time.Millisecond))
+				b.Write([]byte{5, 0})
+				b.SetReadDeadline(time.Now().Add(500 * time.Millisecond))
+				if _, err := io.ReadFull(b, buf[:10]); err != nil {
+					return
+				}
+				b.SetWriteDeadline(time.Now().Add(500 * time.Millisecond))
+				b.Write([]byte{5, 0, 0, 1, 0, 0, 0, 0, 0x1f, 0x90})
+				for _, p := range [][]byte{c.Reply, c.Data, {}} {
+					if len(p) > 60000 {
+						p = p[:60000]
+					}
+					frame := append([]byte{0, byte(len(p) >> 8), byte(len(p))}, p...)
+					b.SetWriteDeadline(time.Now().Add(500 * time.Millisecond))
+					if _, err := b.Write(append(frame, 0xff)); err != nil {
+						return
+					}
+				}
+				time.Sleep(80 * time.Millisecond)
+			}()
+			return a, nil
+		})
+		srv, err := socks5.New(cfg)
+		if err != nil {
+			o.Failf("harness", "socks5.New: %v", err)
+			return
+		}
+		sn := simnet.NewStreamNet(simnet.StreamOpts{})
+		ln, _ := sn.Listen(context.Background(), "tcp", "10.0.0.1:1080")
+		defer ln.Close()
+		go func() {
+			conn, err := sn.DialContext(context.Background(), "tcp", "10.0.0.1:1080")
+			if err != nil {
+				return
+			}
+			defer conn.Close()
+			writeChunks(conn, append([]byte{5, 1, 0}, exemplars[1]...), c.Chunk)
+			rep := make([]byte, 12)
+			conn.SetReadDeadline(time.Now().Add(time.Second))
+			if _, err := io.ReadFull(conn, rep); err != nil || rep[3] != 0 {
+				return
+			}
+			port := int(rep[10])<<8 | int(rep[11])
+			// the application speaks only after the proxy server already did
+			time.Sleep(40 * time.Millisecond)
+			if app, err := net.ListenUDP("udp4", &net.UDPAddr{IP: net.IPv4(127, 0, 0, 1)}); err == nil {
+				app.WriteToUDP(exemplars[10], &net.UDPAddr{IP: net.IPv4(127, 0, 0, 1), Port: port})
+				time.Sleep(20 * time.Millisecond)
+				app.Close()
+			}
+		}()
+		conn, _ := ln.Accept()
+		done := make(chan struct{})
+		go func() {
+			defer close(done)
+			defer func() {
+				if r := recover(); r != nil {
+					o.Failf("panic/target-13", "ServeConn (client role, UDP associate) panicked: %v", r)
 				}
 			}()
 			srv.ServeConn(conn)
